@@ -50,6 +50,12 @@ PROPS = {
         "technique": 'explicit-state BFS by re-execution against a reference table model',
         "level": "model_checking",
         "profiles": ["rel", "chk"],
+        # a crash of the code under test (e.g. a wild read through a mis-computed index) kills the shard: the monitored
+        # driver attributes it to the breadcrumb transition, confirms it by replaying it alone twice and resumes
+        "monitors": {
+            "quick": [{"name": "rel", "variant": "rel"}, {"name": "chk", "variant": "chk"}],
+            "thorough": [{"name": "rel", "variant": "rel"}, {"name": "chk", "variant": "chk"}],
+        },
         "wall": {"quick": 150, "thorough": 3000},
         "rule": "Explicit-state BFS over operation histories of the real DenseMatrix for 28 (T, C) instantiations against a Vec<Vec<T>> model.",
         "assumptions": COMMON_ASSUMPTIONS + [
@@ -217,7 +223,7 @@ PROPS.update({
     },
     "C12": {
         "level_text": 'Bounded-exhaustive exploration: same matrix/background menu as C11; queries min-1, every distinct attainable score (at most 600 evenly ranked, 2400 thorough), each +1e-4, midpoints, max+1; EVERY refinement step of approximate_pvalue with g >= 1e-9 and the final pvalue() are compared with the brute-force tail using exactly the statement\'s margins (M+1)g / (M+2)g; panics (incl. assert!(converged)) and >40 refinement steps are violations. Plus `reuse`: ALL query histories of length <= 3 (4 thorough) over 11 p-value / score queries (partial and full refinements) on ONE TfmPvalue object, the last answer compared with that of a fresh object.',
-        "level_note": 'Trusted: brute-force oracle; 1e-6 allowance on probabilities; for the final value only, the score margin has the floor 64 ulp(|s| + sum of row ranges). The statement bounds pmin only from below and pmax only from above, so single-key off-by-one mutations of the integer window are inside its slack (measured).',
+        "level_note": 'Trusted: brute-force oracle; RELATIVE 1e-6 allowance on probabilities (so that tails far below 1e-6 - skewed background, p below machine epsilon - are decided too); for the final value only, the score margin has the floor 64 ulp(|s| + sum of row ranges). The statement bounds pmin only from below and pmax only from above, so single-key off-by-one mutations of the integer window are inside its slack (measured).',
         "technique": 'bounded-exhaustive enumeration of matrices x backgrounds x scores x every refinement step against a brute-force exact distribution',
         "level": "exploration", "package": "vx-pval", "profiles": ["rel", "chk"],
         "wall": {"quick": 150, "thorough": 3000},
